@@ -1,4 +1,5 @@
 """C13 — whatever a connection used is given back when it ends"""
+from relaymain import RelayMainMode, RELAYMAIN_RULE
 from lagcommon import LagMode, LAG_RULE
 from tiecommon import TIE_DENY, TIE_TTLCODE, TIE_CHANMAP, TIE_NOTE, TIE_ASSUMPTION
 import vlib
@@ -27,6 +28,8 @@ RULE = TIE_NOTE + RULE
 ASSUMPTIONS = ASSUMPTIONS + [TIE_ASSUMPTION]
 
 RULE = RULE + LAG_RULE
+
+RULE = RULE + RELAYMAIN_RULE
 
 
 
@@ -95,4 +98,4 @@ class ChanMapForC13(c08.ChanMapMode):
 
 
 def modes(tier):
-    return [LeakMode(), HubMode("C13"), ChanMapForC13(), RelayMode("C13"), LagMode("C13")]
+    return [LeakMode(), HubMode("C13"), ChanMapForC13(), RelayMode("C13"), LagMode("C13"), RelayMainMode("C13", 2)]
